@@ -37,6 +37,10 @@ type Run struct {
 	Repeat int `json:"repeat"`
 	// Rev: build context maps inserting the keys in reverse order
 	Rev bool `json:"rev"`
+	// Probe: after the render, the same engine must still render a fixed probe template correctly
+	Probe bool `json:"probe"`
+	// Decode: bytes handed to DeserializeCompiledTemplate / LoadFromCompiledData instead of rendering
+	Decode []int `json:"decode"`
 	// Shared > 0: render Shared times with the SAME context value; every render must give the
 	// first one's result and the context (deep snapshot incl. slice capacity windows) must not change
 	Shared int `json:"shared"`
@@ -345,9 +349,34 @@ func renderRun(c *Case, r *Run, ctx map[string]interface{}) (o obs) {
 			if err := e.RegisterString(name, src); err != nil {
 				o.kind = "parse"
 				o.errMsg = name + ": " + err.Error()
+				if r.Probe {
+					probeEngine(e, &o)
+				}
 				return
 			}
 		}
+	}
+	if r.Decode != nil {
+		data := make([]byte, len(r.Decode))
+		for i, x := range r.Decode {
+			data[i] = byte(x)
+		}
+		_, derr := twig.DeserializeCompiledTemplate(data)
+		lerr := e.LoadFromCompiledData(data)
+		if (derr == nil) != (lerr == nil) && derr != nil {
+			o.kind = "other"
+			o.errMsg = "Deserialize and LoadFromCompiledData disagree: " + fmt.Sprint(derr, lerr)
+		}
+		if derr != nil {
+			o.kind = "other"
+			o.errMsg = derr.Error()
+		} else {
+			o.ok = true
+		}
+		if r.Probe {
+			probeEngine(e, &o)
+		}
+		return
 	}
 	var out string
 	var err error
@@ -377,11 +406,26 @@ func renderRun(c *Case, r *Run, ctx map[string]interface{}) (o obs) {
 		o.kind = classify(err)
 		o.errMsg = err.Error()
 		o.out = out // Render must return "" with an error
+	} else {
+		o.ok = true
+		o.out = out
+	}
+	if r.Probe {
+		probeEngine(e, &o)
+	}
+	return
+}
+
+// probeEngine: whatever happened before, the engine must still be usable
+func probeEngine(e *twig.Engine, o *obs) {
+	if err := e.RegisterString("zzprobe", "p{{ 1 + 1 }}{% for i in [1, 2] %}{{ i }}{% endfor %}"); err != nil {
+		o.ok, o.kind, o.errMsg = false, "unusable", "probe register: "+err.Error()
 		return
 	}
-	o.ok = true
-	o.out = out
-	return
+	out, err := e.Render("zzprobe", map[string]interface{}{"q": 1})
+	if err != nil || out != "p212" {
+		o.ok, o.kind, o.errMsg = false, "unusable", fmt.Sprintf("probe render gave %q, %v", out, err)
+	}
 }
 
 func renderRunTimed(c *Case, r *Run, ctx map[string]interface{}, limit time.Duration) obs {
@@ -498,6 +542,10 @@ func checkCase(c *Case, limit time.Duration) (res Result, hung bool) {
 		}
 		if o.kind == "panic" {
 			fail("panic", o.errMsg, "")
+			continue
+		}
+		if o.kind == "unusable" {
+			fail("engine-unusable", o.errMsg, "")
 			continue
 		}
 		wantOut := c.Expect.Out
